@@ -178,6 +178,9 @@ def identities_violations(dist, desc, rng, cond_dim):
 
 def search(hints, tier, rng):
     wit = []
+    from props import oracles
+    # Invert nested inside Chain / Invert: every method and the sampling path equal the composition of the parts
+    wit += oracles.nested_invert_violations(rng, 3)
     for name, mk in factories():
         for invert in (True, False):
             for cd in (None, 2):
@@ -223,4 +226,7 @@ def nested_merge_violations(tier, rng):
 
 def replay(w):
     import random
+    if w.get("kind") == "nested_invert":
+        from props import oracles
+        return bool(oracles.replay_witness(w))
     return bool(search({}, "quick", random.Random(0)))
